@@ -989,6 +989,45 @@ int EGLPNUM_TYPENAME_ILLlib_addrows (
 
 	EGLPNUM_TYPENAME_EGlpNumInitVar (rng);
 
+	/* validate every row first: a failing call adds nothing
+	 * (not covered: a generated name c<k> colliding with a later given name) */
+	for (i = 0; i < num; i++)
+	{
+		if (sense[i] != 'L' && sense[i] != 'G' && sense[i] != 'E' && sense[i] != 'R')
+		{
+			QSlog("illegal sense in row %d of EGLPNUM_TYPENAME_ILLlib_addrows", i);
+			rval = 1;
+			ILL_CLEANUP;
+		}
+		for (j = 0; j < rmatcnt[i]; j++)
+		{
+			if (rmatind[rmatbeg[i] + j] < 0 || rmatind[rmatbeg[i] + j] >= lp->O->nstruct)
+			{
+				QSlog("illegal column index in row %d of EGLPNUM_TYPENAME_ILLlib_addrows", i);
+				rval = 1;
+				ILL_CLEANUP;
+			}
+		}
+		if (names && names[i])
+		{
+			if (ILLsymboltab_contains (&lp->O->rowtab, names[i]))
+			{
+				QSlog("row name %s already in use", names[i]);
+				rval = 1;
+				ILL_CLEANUP;
+			}
+			for (j = 0; j < i; j++)
+			{
+				if (names[j] && !strcmp (names[i], names[j]))
+				{
+					QSlog("row name %s given twice", names[i]);
+					rval = 1;
+					ILL_CLEANUP;
+				}
+			}
+		}
+	}
+
 	if (B == 0 || B->rownorms == 0)
 	{
 		if (factorok)
@@ -2146,7 +2185,40 @@ int EGLPNUM_TYPENAME_ILLlib_addcols (
 	int factorok)
 {
 	int rval = 0;
-	int i;
+	int i, j;
+
+	/* validate every column first: a failing call adds nothing
+	 * (not covered: a generated name x<k> colliding with a later given name) */
+	for (i = 0; i < num; i++)
+	{
+		for (j = 0; j < cmatcnt[i]; j++)
+		{
+			if (cmatind[cmatbeg[i] + j] < 0 || cmatind[cmatbeg[i] + j] >= lp->O->nrows)
+			{
+				QSlog("illegal row index in column %d of EGLPNUM_TYPENAME_ILLlib_addcols", i);
+				rval = 1;
+				ILL_CLEANUP;
+			}
+		}
+		if (names && names[i])
+		{
+			if (ILLsymboltab_contains (&lp->O->coltab, names[i]))
+			{
+				QSlog("column name %s already in use", names[i]);
+				rval = 1;
+				ILL_CLEANUP;
+			}
+			for (j = 0; j < i; j++)
+			{
+				if (names[j] && !strcmp (names[i], names[j]))
+				{
+					QSlog("column name %s given twice", names[i]);
+					rval = 1;
+					ILL_CLEANUP;
+				}
+			}
+		}
+	}
 
 	for (i = 0; i < num; i++)
 	{
